@@ -466,3 +466,7 @@ Definition stored_view (c : ctx) : option arecord :=
   | Some (sn, s) => Some (sn, contents (hp c) s)
   | None => None
   end.
+
+(* the state a launch rebuilds from a record: the snapshot, then the events (nothing stored: the empty state) *)
+Definition rebuilds (r : option arecord) : list Z :=
+  match r with Some (sn, t) => snap_list sn ++ t | None => [] end.
